@@ -14,6 +14,12 @@ EXTRA = {
  "C12-m1": ["C12"], "C12-m2": ["C12", "C14"], "C13-m1": ["C13"], "C13-m2": ["C13", "C15"], "C14-m1": ["C14", "C02"], "C14-m2": ["C14"],
  "C15-m1": ["C15", "C13"], "C15-m2": ["C15"], "C16-m1": ["C16", "C02"], "C16-m2": ["C16"], "C17-m1": ["C17"], "C17-m2": ["C17"],
 }
+EXTRA.update({
+ "C01-r2m1": ["C01"], "C01-r2m2": ["C01"], "C02-r2m1": ["C02", "C14"], "C02-r2m2": ["C02"], "C04-r2m1": ["C04"], "C04-r2m2": ["C04"],
+ "C05-r2m1": ["C05"], "C05-r2m2": ["C05"], "C09-r2m1": ["C09", "C04"], "C09-r2m2": ["C09", "C04"], "C10-r2m1": ["C10", "C04"], "C10-r2m2": ["C10"],
+ "C11-r2m1": ["C11", "C05"], "C11-r2m2": ["C11", "C14"], "C12-r2m1": ["C12"], "C12-r2m2": ["C12"], "C13-r2m1": ["C13"], "C13-r2m2": ["C13"],
+ "C14-r2m1": ["C14", "C02"], "C14-r2m2": ["C14"], "C16-r2m1": ["C16"], "C16-r2m2": ["C16"], "C17-r2m1": ["C17"], "C17-r2m2": ["C17"],
+})
 PREFIX_PROP = {"d8b687c": ["C06"], "da7613f": ["C16"], "64a92d9": ["C02"], "2c87331": ["C13", "C02", "C12"], "06fc22c": ["C05", "C11"],
                "85dc330": ["C05", "C11"], "4c427cc": ["C13"], "a8065bf": ["C13"], "a4e97cf": ["C11"], "2aa0389": ["C04"],
                "9db7846": ["C17"], "23f20cf": ["C17"], "b18464c": ["C07"], "d06cb78": ["C10"], "796c1d9": ["C01", "C11"]}
